@@ -736,6 +736,9 @@ func (e *Engine) callStub(name string, recv Value, args []Value) Value {
 		dig := e.bytesRope(args[2].(BytesV))
 		opts := args[3].(Iface)
 		okv := e.envBool("rsa.Sign.ok")
+		if e.forceOK {
+			e.addPC(okv)
+		}
 		if !e.branch(okv) {
 			return TupleV{e.zero(types.NewSlice(types.Typ[types.Uint8])), e.mkErr("rsa: signing failed (injected)")}
 		}
@@ -929,8 +932,7 @@ func (e *Engine) canonID(r Rope) *Term {
 		}
 	}
 	for _, c := range e.canon {
-		eq := e.ropeEq(c.rope, r)
-		if eq.isTrue() || (!eq.isFalse() && e.mustBe(eq)) {
+		if e.provablyEqual(c.rope, r) {
 			e.canon = append(e.canon, canonEntry{r, key, c.id})
 			return c.id
 		}
@@ -938,6 +940,30 @@ func (e *Engine) canonID(r Rope) *Term {
 	id := e.c64(uint64(0xC0DE0000 + len(e.canon)))
 	e.canon = append(e.canon, canonEntry{r, key, id})
 	return id
+}
+
+// provablyEqual: the solver proves the two byte strings equal under the path
+// condition; never forks (an alignment that would need a case split counts as "not proven").
+func (e *Engine) provablyEqual(a, b Rope) (res bool) {
+	e.noFork++
+	defer func() {
+		e.noFork--
+		if r := recover(); r != nil {
+			if _, ok := r.(noForkAbort); ok {
+				res = false
+				return
+			}
+			panic(r)
+		}
+	}()
+	eq := e.ropeEq(a, b)
+	if eq.isTrue() {
+		return true
+	}
+	if eq.isFalse() {
+		return false
+	}
+	return e.mustBe(eq)
 }
 
 func (e *Engine) hashOf(h *Term, data Rope) Rope {
